@@ -6,7 +6,7 @@
 (* the enumeration; the laws are invariants of the states that hold a      *)
 (* complete case.  The same operators judge the real code in TraceGraph.   *)
 (***************************************************************************)
-EXTENDS ListOps
+EXTENDS ListOps, Json, IOUtils
 
 CONSTANTS Family,     \* "merge" | "extract" | "match"
           IdsU, Ghost, TypesU, AttrVals,
@@ -45,6 +45,9 @@ MNode(id, k, h1, h2, p) ==
      ELSE [f \in DOMAIN withH \cup {"identifiers"} |-> IF f = "identifiers" THEN <<<<1, p>>>> ELSE withH[f]]
 MNodes(id) == {MNode(id, k, h1, h2, p) : k \in KindsU, h1 \in HashVals, h2 \in HashVals, p \in PurlVals}
 
+\* Family = "export": the merge universe is written out (one projected list per element) so that the harness can run the
+\* real operations on ALL ordered pairs of it
+ASSUME Family = "export" => JsonSerialize(IOEnv.VH_EXPORT, [all |-> UMerge])
 Universe == IF Family = "merge" THEN UMerge ELSE IF Family = "extract" THEN UExtract ELSE {EmptyList}
 
 Init == x = EmptyList /\ y = EmptyList /\ z = EmptyList /\ stage = 0
